@@ -7,7 +7,7 @@
   the argument is about the loop alone.
 
   So fuel sufficiency at the driver level is NOT a theorem of `Laws` + `ScoreLaws`; it needs a
-  hypothesis about the window size (`AspLaws`: `WindowSize = 44`, Proofs/SearchFuelGo.lean).
+  hypothesis about the window size (`AspLaws`: `WindowSize` in `39..44` or `78..88`, Proofs/SearchFuelGo.lean).
 -/
 import ChessVerif.Proofs.SearchFinalAbort
 import ChessVerif.Proofs.SearchScoreFree
